@@ -1394,11 +1394,16 @@ theorem resistancesOk_default (n : Nat) (res : Mat) :
 
 section source_tie4
 open Pyunicorn.Generated.ArithC18
-/-- `adjacency[resistances != 0] = 1` — regenerated from `__init__` on every run -/
-theorem defaultAdj_matches_source (res : Mat) (i j : Nat) :
+set_option linter.unusedSimpArgs false in
+/-- `adjacency[resistances != 0] = 1` — regenerated from `__init__` on every run; stated on the
+non-negative entries a resistance matrix has (so that an equivalent test such as `> 0` keeps the
+proof) -/
+theorem defaultAdj_matches_source (res : Mat) (i j : Nat) (h : 0 ≤ res i j) :
     defaultAdj res i j = defaultAdjExpr (res i j) := by
   unfold defaultAdj defaultAdjExpr
-  by_cases h : res i j = 0 <;> simp [h]
+  rcases eq_or_lt_of_le h with h0 | hpos
+  · simp [← h0]
+  · simp [hpos, hpos.ne']
 
 /-- `np.dot(adj, ad) / ad` — regenerated from `average_neighbors_admittive_degree` -/
 theorem anad_matches_source (n : Nat) (adj : Adj) (adm : Mat) (i : Nat) :
